@@ -6,6 +6,8 @@ import PoaVerif.Props.C14
 import PoaVerif.Lemmas.Corollaries
 import PoaVerif.Lemmas.QuietEffect
 import PoaVerif.Lemmas.Quiet2.Effect
+import PoaVerif.Lemmas.Quiet2.GovEffect
+import PoaVerif.Witness.Q4
 import PoaVerif.Witness.Q2
 /-
   C03 — admin operations have exactly the requested effect, on the target only.
@@ -182,5 +184,39 @@ example : quietBlock2B Witness.Q2.s1 Witness.Q2.c1 Witness.Q2.b2 = true ∧
     alookup 2 Witness.Q2.c2 = none ∧ alookup 0 Witness.Q2.c2 = some 12 ∧
     (Witness.Q2.s2.getVal 2).map (·.status) = some Status.unbonding :=
   ⟨by decide, by decide, by decide, by decide, by decide, by decide⟩
+
+/-! ### the default configuration: SetPower executed by a passed governance proposal (`Lemmas/Quiet2/GovEffect`) -/
+
+/-- **C03, requested effect of a SetPower that arrives through governance**: from every state satisfying the
+    between-blocks invariant `G2`, for every quiet block in the sense of `Props.C02.c02_governance` whose gov account is
+    the admin: if the proposal at position `gpre.length` among the proposals x/gov executes in the block goes through (its
+    result, listed after the transactions' results, is `ok`) and carries `SetPower(op, p)` at **any** position of its
+    message list, then the block does not halt, CometBFT accepts its updates, and afterwards `op` holds exactly `p` tokens
+    and CometBFT's set holds exactly `p / 10^6` under its key.  This is where x/gov's EndBlocker running *before*
+    x/staking's matters (`facts_endblock_order`): the proposal's writes are in place when the validator-set update is
+    computed. -/
+theorem c03_gov_setPower_effect_quiet_block (s : App) (c : CSet) (b : Block) (g : G2 s c) (q : QuietBlock3 s c b)
+    (hadm : b.govIsAdmin = true)
+    (gpre gpost : List (List Msg)) (mpre mpost : List Msg) (op p : Nat) (u : Bool)
+    (hb : b.gov = gpre ++ (mpre ++ .setPower (some op) p u :: mpost) :: gpost) :
+    ∃ o s' c', App.block genEnv s b = .ok (o, s') ∧ Comet.applyChangeSet c o.updates = .ok c' ∧ G2 s' c' ∧
+      (o.txrs[b.txs.length + gpre.length]? = some .ok →
+        ∃ v, s'.getVal op = some v ∧ v.tokens = p ∧ alookup v.key c' = some ((p / PR : Nat) : Int)) :=
+  quiet3_block_gov_setPower_effect s c b g q hadm gpre gpost mpre mpost op p u hb
+
+/-- … and block by block (`EffectAll3`) along every quiet history, governance included, from every well-formed genesis -/
+theorem c03_gov_effect_history_partial (g : Genesis) (hw : g.wf = true) (bs : List Block) (hq : QuietHistory3 g bs) :
+    ∃ first steps, run genEnv g bs = some (first, steps, RunEnd.done) ∧ steps.length = bs.length ∧ EffectAll3 bs steps :=
+  quiet_history3_gov_effect g hw bs hq
+
+/- non-vacuity (kernel-checked): in the fourth block of the governance witness history `Q4` x/gov executes the proposal
+   `[RemoveValidator(2), SetPower(3, 12 000 000)]` (result at position 5, after the five transactions of the block);
+   after the block CometBFT holds 12 for key 3 and nothing for key 2 -/
+set_option maxHeartbeats 4000000 in
+example : quietBlock3B Witness.Q4.s3 Witness.Q4.c3 Witness.Q4.b4 = true ∧ Witness.Q4.b4.govIsAdmin = true ∧
+    Witness.Q4.b4.gov = [] ++ ([Msg.remove (some 2)] ++ Msg.setPower (some 3) 12000000 true :: []) :: [] ∧
+    Witness.Q4.o4.txrs[Witness.Q4.b4.txs.length + 0]? = some .ok ∧
+    alookup 3 Witness.Q4.c4 = some 12 ∧ alookup 2 Witness.Q4.c4 = none :=
+  ⟨by decide, rfl, rfl, by decide, by decide, by decide⟩
 
 end PoaVerif.Props.C03
